@@ -2,7 +2,8 @@ from .common import COMMON_TB
 
 CFG = dict(
         coq="Properties/C11.v",
-        areas=["delta"],
+        areas=["delta", "bcj"],
+        profiles=["release", "checked"],
         level="proof",
         theorems_expected=["C11_delta_inverse", "C11_delta_matches_reference", "C11_delta_write_partition", "C11_delta_read_partition"],
         rule="cases = (filter, parameters, data from 10 compressibility classes, write-call partition / inner chunking + destination-size history) "
